@@ -73,6 +73,29 @@ def history_oracle(fields, impl, model):
     return []
 
 
+def timeout_oracle(fields, impl, model):
+    """C19: the outcome of every invocation must be one the timed model allows for the arranged
+    durations, with its metadata, and the answer must come within d plus a scheduling margin
+    (alarm threshold d + 2 s: machine load must not raise alarms)."""
+    if impl and impl[0] == b"panic":
+        return [("panic", impl[1][:80] if len(impl) > 1 else b"")]
+    if not model or model[0] != b"ok":
+        return [("model-error", b"")]
+    steps = fields[1:]
+    tags = []
+    for i in range(len(model) - 1):
+        allowed = model[1 + i].split(b"|")
+        got, el = impl[1 + 2 * i], int(impl[2 + 2 * i])
+        d = int(steps[3 * i])
+        if got not in allowed:
+            tags.append(("wrong-outcome", b"invocation %d: got %s, allowed %s" % (i, got, model[1 + i])))
+            break
+        if el > d + 2000:
+            tags.append(("late-answer", b"invocation %d: %d ms for d = %d ms" % (i, el, d)))
+            break
+    return tags
+
+
 # pid -> list of streams; each stream: harness name, model runner, oracle runner, counts
 PROPS = {
     "C11": dict(streams=[dict(harness="multiparts", model="multiparts", oracle="multiparts_oracle", quick=6000, thorough=200000)],
@@ -134,6 +157,15 @@ PROPS = {
                      "members, nested batches, members that Setenv and read the environment, shared static Actions; stream `batch` compares the merged "
                      "completion with the sequential merge (model and reference algebra) under GOMAXPROCS 1, 2, 16; stream `batchrace` runs the same "
                      "kind of workload in a -race build and fails on any report of the Go race detector"),
+    "C19": dict(streams=[dict(harness="timeout", model="timeout", oracle=None, quick=96, thorough=3000,
+                             project=lambda f, x: [b"-"], oracle_cmp=timeout_oracle, nontrivial=lambda f, impl: len(impl) >= 3),
+                         dict(harness="timeoutrace", model="timeout", oracle=None, race=True, quick=48, thorough=1000,
+                             project=lambda f, x: [b"-"], oracle_cmp=timeout_oracle, nontrivial=lambda f, impl: len(impl) >= 3)],
+                tie="Model/Timeout.v (answers relation with a 40 ms margin around the boundary) and the goroutine/channel inventory of Action.Timeout (Gen/Sites.v) <-> real Timeout around callbacks of arranged duration",
+                rule="cases = Timeout(d in {60,90,120} ms, alternative) around a callback that returns instantly, at d/3, d-55, d+60, d+150 ms or never; "
+                     "optionally nested in a second Timeout (60/120/200 ms) and inside a Batch; the SAME wrapped Action is invoked 1-3 times in a "
+                     "row with different durations; outcome (inner with its description/usage/no-space, alt, alt2) and elapsed time are compared "
+                     "with the outcomes the timed model allows; second stream: the same under the race detector"),
 }
 
 TRUSTED = ["Go harness stream(s) and extracted oracle of this property (see rule)"]
